@@ -158,10 +158,10 @@ def fresh_name(base):
 
 
 class Val:
-    __slots__ = ("t", "z", "conc", "origin")
+    __slots__ = ("t", "z", "conc", "origin", "choices")
 
-    def __init__(self, t, z, conc=None, origin=None):
-        self.t, self.z, self.conc, self.origin = t, z, conc, origin
+    def __init__(self, t, z, conc=None, origin=None, choices=None):
+        self.t, self.z, self.conc, self.origin, self.choices = t, z, conc, origin, choices
 
     def __repr__(self):
         return f"Val<{tstr(self.t)}:{self.z if self.z is not None else self.conc}>"
